@@ -305,6 +305,27 @@ class Ctx:
         self.feas_queries += 1
         return str(r)        # 'sat' | 'unsat' | 'unknown'
 
+    def feasible_light(self, extra):
+        """cheap pre-check on the linear abstraction (non-linear subterms opaque): 'unsat' is sound"""
+        from .terms import linear_abstract
+        if not hasattr(self, '_lin_table'):
+            self._lin_table, self._lin_cache, self._lin_pc, self._lin_n = {}, {}, [], 0
+        while self._lin_n < len(self.pc):
+            self._lin_pc.append(linear_abstract(self.pc[self._lin_n], self._lin_table, self._lin_cache))
+            self._lin_n += 1
+        if not hasattr(self, '_lin_assume') or self._lin_assume_n != len(self.assume):
+            self._lin_assume = [linear_abstract(a, self._lin_table, self._lin_cache) for a in self.assume]
+            self._lin_assume_n = len(self.assume)
+        s = z3.Solver()
+        s.set('timeout', 300)
+        s.add(self._lin_assume)
+        s.add(self._lin_pc)
+        s.add([linear_abstract(x, self._lin_table, self._lin_cache) for x in extra])
+        t0 = time.time()
+        r = str(s.check())
+        self.solver_time += time.time() - t0
+        return r
+
     def decide(self, pred, concrete_default):
         """Decide a symbolic Bool.  Returns the python bool taken on this path."""
         pred = simp(pred)
@@ -325,8 +346,11 @@ class Ctx:
             taken = self.forced[i]
             alt = None   # already accounted for by the explorer
         else:
-            ft = self.feasible([pred])
-            ff = self.feasible([npred])
+            ft = self.feasible_light([pred])
+            ff = self.feasible_light([npred]) if ft != 'unsat' else 'sat'
+            if ft != 'unsat' and ff != 'unsat':
+                ft = self.feasible([pred])
+                ff = self.feasible([npred])
             if ft == 'unsat' and ff == 'unsat':
                 raise Infeasible("path condition itself infeasible")
             if ft == 'unsat':
